@@ -513,20 +513,25 @@ def global_cases(rng, n):
 
 def gen_cases(rng, tier):
     q = tier == 'quick'
-    cases = []
-    cases += prefix_cases(rng, 150 if q else 800)
-    cases += prefix_merge_cases(rng, 120 if q else 600)
-    cases += aspath_cases(rng, 150 if q else 800)
-    cases += aspath_cases(rng, 80 if q else 400, regex_p=1.0, cls='aspath_regex')
-    cases += community_cases(rng, 120 if q else 700)
-    cases += chain_cases(rng, 250 if q else 1500)
+    from gen import c14_enum
+    cases = c14_enum.enum_cases()        # enumerated on every run, before anything random
+    import os
+    only = os.environ.get('VERIF_C14_CLASSES')          # self-test aid: 'enum' / 'enum-table' run the enumerated classes alone
+    if only == 'enum': return cases
+    if only == 'enum-table': return [c for c in cases if c.get('kind') != 'global']
+    cases += prefix_cases(rng, 80 if q else 600)
+    cases += prefix_merge_cases(rng, 80 if q else 450)
+    cases += aspath_cases(rng, 80 if q else 600)
+    cases += aspath_cases(rng, 40 if q else 300, regex_p=1.0, cls='aspath_regex')
+    cases += community_cases(rng, 60 if q else 500)
+    cases += chain_cases(rng, 150 if q else 1100)
     cases += length_cases(rng, 6 if q else 60)
     cases += api_cases(rng, 30 if q else 400)
     cases += med_cases(rng)
-    cases += rpki_cases(rng, 60 if q else 300)
-    cases += global_cases(rng, 150 if q else 800)
+    cases += rpki_cases(rng, 60 if q else 220)
+    cases += global_cases(rng, 100 if q else 600)
     cases += crud_directed(rng)
     if not q:
         for _ in range(20): cases += crud_directed(rng)[:6]
-    cases += crud_cases(rng, 400 if q else 2200, 14 if q else 30)
+    cases += crud_cases(rng, 250 if q else 1600, 14 if q else 30)
     return cases
